@@ -28,6 +28,10 @@ import (
 
 func init() { reg.Register("C14", Run) }
 
+// maxHung: after so many histories in which a call of the library did not return, the remaining
+// transitions are not replayed (each would cost the deadline); the run ends with those verdicts.
+const maxHung = 3
+
 const (
 	sigLocal  = "C14|print-edit-print|panic|cached local ID validated against position"
 	sigGlobal = "C14|print-edit-print|panic|cached global ID validated against position"
@@ -73,6 +77,10 @@ func allObservers(h []irhist.Call) []string {
 // signature classifies a with/without difference.
 func signature(h []irhist.Call, with, without irhist.Result) string {
 	switch {
+	case with.Hung != "":
+		return "C14|observed history|does not return|" + with.Hung
+	case without.Hung != "":
+		return "C14|unobserved history|does not return|" + without.Hung
 	case with.EarlyMsg != "" || without.EarlyMsg != "":
 		m := with.EarlyMsg
 		if m == "" {
@@ -104,7 +112,7 @@ func signature(h []irhist.Call, with, without irhist.Result) string {
 
 type stats struct {
 	transitions, withObs, nontrivial, divergences, obsPanics int
-	mdRelabelled, dupSkipped                                 int
+	mdRelabelled, dupSkipped, hung                           int
 	exact                                                    bool
 	mdExample                                                string
 	known                                                    map[string]int
@@ -125,8 +133,16 @@ func judge(rep *mbt.Report, tr irhist.Transition, st *stats, source string) {
 	rep.Count(key, len(pre) > 0)
 	with := irhist.ReplayOpt(h, true, st.exact)
 	without := irhist.ReplayOpt(h, false, st.exact)
-	st.obsPanics += with.ObsPanics
+	st.obsPanics += with.ObsPanics + with.QueryPanics
 	c := map[string]interface{}{"hist": h, "want": tr.Want, "source": source, "exact": st.exact}
+	if with.Hung != "" || without.Hung != "" {
+		// a call of the library did not return within the deadline: a verdict of the real code
+		st.hung++
+		rep.Fail(mbt.Failure{Signature: signature(h, with, without),
+			What: fmt.Sprintf("history %s: with observers -> %s; without observers -> %s (deadline %s per replay)", key, with.Outcome(), without.Outcome(), irhist.Deadline),
+			Case: c})
+		return
+	}
 	if irhist.SameOutcome(with, without) && !irhist.SameOutcomeLiteral(with, without) {
 		// same module, metadata definitions labelled differently (see notes/C14.md)
 		st.mdRelabelled++
@@ -180,6 +196,8 @@ func judge(rep *mbt.Report, tr irhist.Transition, st *stats, source string) {
 var reInitLine = regexp.MustCompile(`^@[\w.]+ = global (.*) (@[\w.]+)$`)
 var reAddrSpace = regexp.MustCompile(` addrspace\(\d+\)`)
 var reUseLine = regexp.MustCompile(`@h\.use\((.*) ([%@][\w.]+)\)`)
+var reIndLine = regexp.MustCompile(`^(@[\w.]+) = (alias|ifunc) `)
+var reDepLine = regexp.MustCompile(`^\s*(%[\w.]+) = (phi|select|call) `)
 
 // staleTypeOf classifies a text difference that consists in the type shown for a typed
 // operand: "type of alloca operand", "type of global operand", "type of function operand".
@@ -193,6 +211,20 @@ func staleTypeOf(a, b irhist.Result) string {
 		if la[i] == lb[i] {
 			continue
 		}
+		// the definition line of an alias / ifunc, or an instruction that shows its own cached result type
+		k2 := ""
+		if xa, xb := reIndLine.FindStringSubmatch(la[i]), reIndLine.FindStringSubmatch(lb[i]); xa != nil && xb != nil && xa[1] == xb[1] && xa[2] == xb[2] {
+			k2 = "type shown by the " + xa[2] + " definition"
+		} else if xa, xb := reDepLine.FindStringSubmatch(la[i]), reDepLine.FindStringSubmatch(lb[i]); xa != nil && xb != nil && xa[1] == xb[1] && xa[2] == xb[2] {
+			k2 = "result type of " + xa[2]
+		}
+		if k2 != "" {
+			if what != "" && what != k2 {
+				return ""
+			}
+			what = k2
+			continue
+		}
 		ma, mb := reUseLine.FindStringSubmatch(la[i]), reUseLine.FindStringSubmatch(lb[i])
 		if ma == nil || mb == nil {
 			// a global initialised with the object: its ContentType is a copy of the operand's type
@@ -202,7 +234,11 @@ func staleTypeOf(a, b irhist.Result) string {
 			return ""
 		}
 		k := "type of global operand"
-		if strings.HasPrefix(ma[2], "%") {
+		if definedAs(a.Text, ma[2], "alias") {
+			k = "type of alias operand"
+		} else if definedAs(a.Text, ma[2], "ifunc") {
+			k = "type of ifunc operand"
+		} else if strings.HasPrefix(ma[2], "%") {
 			k = "type of alloca operand"
 		} else if strings.HasSuffix(reAddrSpace.ReplaceAllString(ma[1], ""), ")*") {
 			k = "type of function operand"
@@ -213,6 +249,11 @@ func staleTypeOf(a, b irhist.Result) string {
 		what = k
 	}
 	return what
+}
+
+// definedAs reports whether text defines ident by a line `ident = kind ...` (kind: alias, ifunc).
+func definedAs(text, ident, kind string) bool {
+	return strings.HasPrefix(text, ident+" = "+kind+" ") || strings.Contains(text, "\n"+ident+" = "+kind+" ")
 }
 
 // firstTextDiff shows the first line on which two printed texts differ.
@@ -273,6 +314,9 @@ func emitAll(rep *mbt.Report, ems []*emission, st *stats, timeout time.Duration)
 		}
 		before := st.transitions
 		for _, tr := range trs {
+			if st.hung >= maxHung {
+				break
+			}
 			if e.exact && tr.Dup {
 				// the final state defines a name twice: a transient state, not a module LLVM accepts
 				st.dupSkipped++
@@ -364,7 +408,7 @@ func Run(tier, replay string) {
 	typesCfg := map[string]string{"MaxSrc": "0", "MaxCalls": "5", "Groups": `{"globals"}`, "MaxPerGroup": "2", "MaxParams": "0", "MaxBlocks": "1",
 		"NewNames": `{""}`, "SetNames": `{"y"}`, "InstRes": `{"value"}`, "TermKinds": `{"ret"}`,
 		"InstOps": `{"alloca", "use"}`, "RefTargets": `{"global", "func", "alloca"}`, "RefGlobals": "TRUE",
-		"FieldEdits": `{"GlobalAddrSpace", "GlobalContent", "FuncAddrSpace", "FuncVariadic", "AllocaAddrSpace", "AllocaElem"}`,
+		"FieldEdits":   `{"GlobalAddrSpace", "GlobalContent", "FuncAddrSpace", "FuncVariadic", "AllocaAddrSpace", "AllocaElem"}`,
 		"TrackQueries": "TRUE", "StickyQueries": "TRUE"}
 	if tier == "thorough" {
 		metadata["MaxCalls"] = "7"
@@ -378,7 +422,7 @@ func Run(tier, replay string) {
 	typedPreset := map[string]string{"MaxSrc": "0", "MaxCalls": "4", "Groups": `{"globals"}`, "MaxPerGroup": "1", "MaxParams": "0", "MaxBlocks": "1",
 		"MaxInsts": "3", "NewNames": `{""}`, "SetNames": `{}`, "InstRes": `{"value"}`, "TermKinds": `{"ret"}`,
 		"InstOps": `{"alloca", "use"}`, "RefTargets": `{"global", "func", "alloca"}`, "RefGlobals": "TRUE", "Preset": `"typed"`,
-		"FieldEdits": `{"GlobalAddrSpace", "GlobalContent", "FuncAddrSpace", "FuncVariadic", "AllocaAddrSpace", "AllocaElem"}`,
+		"FieldEdits":   `{"GlobalAddrSpace", "GlobalContent", "FuncAddrSpace", "FuncVariadic", "AllocaAddrSpace", "AllocaElem"}`,
 		"TrackQueries": "TRUE", "StickyQueries": "TRUE", "Observers": `{"PrintModule", "PrintFunc", "QueryType"}`}
 	if tier == "thorough" {
 		typedPreset["MaxCalls"] = "5"
@@ -404,8 +448,42 @@ func Run(tier, replay string) {
 	ems = append(ems, &emission{label: "blockaddr", consts: blockaddr})
 	ems = append(ems, &emission{label: "operands", consts: operands})
 	ems = append(ems, &emission{label: "names", consts: names, exact: true})
+	// aliases and ifuncs (scaffold: a global, an alias of it, an ifunc, a function that uses both as typed operands):
+	// the cached Typ of an indirect symbol against edits of what it points to -- the aliasee's fields, Aliasee /
+	// Resolver assigned -- with Type() / String() queries and prints in between
+	indirect := map[string]string{"MaxSrc": "0", "MaxCalls": "4", "Groups": `{}`, "MaxPerGroup": "1", "MaxParams": "0", "MaxBlocks": "1",
+		"MaxInsts": "3", "NewNames": `{""}`, "SetNames": `{}`, "InstRes": `{"value"}`, "TermKinds": `{"ret"}`, "InstOps": `{"use"}`,
+		"RefTargets": `{"global", "alias", "ifunc"}`, "Preset": `"indirect"`, "FieldEdits": `{"GlobalAddrSpace", "GlobalContent"}`,
+		"Edits": `{"SetTarget"}`, "TrackQueries": "TRUE", "StickyQueries": "TRUE", "Observers": `{"PrintModule", "PrintFunc", "QueryType"}`}
+	// count-preserving edits of a printed function (scaffold: a parameter, two value instructions): an instruction
+	// replaced in place by one with another name / result, two instructions swapped, the terminator replaced
+	inplace := map[string]string{"MaxSrc": "0", "MaxCalls": "4", "MaxPerGroup": "0", "MaxParams": "1", "MaxBlocks": "1", "MaxInsts": "3",
+		"InstRes": `{"value", "void"}`, "Preset": `"body"`, "Edits": `{"ReplaceInst", "SwapInsts"}`,
+		"Observers": `{"PrintModule", "PrintFunc", "PrintBlock"}`}
+	// half-built IR: phi / select / call whose result type comes from operands that are assigned after
+	// construction (struct literal, then FillArgs) or replaced by operands of another type (RetypeArgs), blocks
+	// without terminator; observers in between panic on the incomplete parts and must leave nothing behind
+	halfbuilt := map[string]string{"MaxSrc": "0", "MaxCalls": "4", "MaxPerGroup": "0", "MaxParams": "0", "MaxBlocks": "2", "MaxInsts": "2",
+		"NewNames": `{""}`, "SetNames": `{"y"}`, "InstRes": `{"value"}`, "TermKinds": `{"ret"}`, "Preset": `"func"`,
+		"DepKinds": `{"phi", "select", "call"}`, "Edits": `{"FillArgs", "RetypeArgs"}`, "TrackQueries": "TRUE", "StickyQueries": "TRUE",
+		"Observers": `{"PrintModule", "PrintFunc", "PrintBlock", "QueryType"}`}
+	if tier == "thorough" {
+		indirect["MaxCalls"] = "5"
+		inplace["MaxCalls"] = "5"
+		halfbuilt["MaxCalls"] = "5"
+	}
+	ems = append(ems, &emission{label: "indirect", consts: indirect})
+	ems = append(ems, &emission{label: "inplace", consts: inplace})
+	ems = append(ems, &emission{label: "halfbuilt", consts: halfbuilt})
 	emitAll(rep, ems, st, 25*time.Minute)
+	if st.hung >= maxHung {
+		rep.Note("replay stopped after %d histories in which a call of the library did not return within %s; the remaining transitions were not replayed", st.hung, irhist.Deadline)
+	}
 	// vacuity guards: plausible variants of the code that the model must reject
+	// (the guards are independent TLC runs that stop at the first violation: started together, at most six at a time)
+	var gwg sync.WaitGroup
+	var gmu sync.Mutex
+	gsem := make(chan struct{}, 6)
 	guard := func(label string, consts map[string]string, extra map[string]string, cfg string, want string) {
 		c := map[string]string{}
 		for k, v := range consts {
@@ -418,20 +496,28 @@ func Run(tier, replay string) {
 		if _, ok := extra["MaxCalls"]; !ok {
 			c["MaxCalls"] = "5"
 		}
-		t := mbt.MustTLC(mbt.TLCOpts{Spec: "IRState", Cfg: cfg, Consts: c, Workers: 1})
-		found := false
-		for _, v := range t.Violated {
-			for _, w := range strings.Split(want, ",") {
-				if v == w || v == w+"Step" {
-					found = true
+		gwg.Add(1)
+		go func() {
+			defer gwg.Done()
+			gsem <- struct{}{}
+			t := mbt.MustTLC(mbt.TLCOpts{Spec: "IRState", Cfg: cfg, Consts: c, Workers: 1})
+			<-gsem
+			gmu.Lock()
+			defer gmu.Unlock()
+			found := false
+			for _, v := range t.Violated {
+				for _, w := range strings.Split(want, ",") {
+					if v == w || v == w+"Step" {
+						found = true
+					}
 				}
 			}
-		}
-		if !found {
-			mbt.Infra("vacuity guard %s: IRState does not violate %s (violated: %v)", label, want, t.Violated)
-		}
-		rep.Extra["guard_"+label] = fmt.Sprint(t.Violated) + " violated as expected after " + fmt.Sprint(t.Distinct) + " states"
-		t.Cleanup()
+			if !found {
+				mbt.Infra("vacuity guard %s: IRState does not violate %s (violated: %v)", label, want, t.Violated)
+			}
+			rep.Extra["guard_"+label] = fmt.Sprint(t.Violated) + " violated as expected after " + fmt.Sprint(t.Distinct) + " states"
+			t.Cleanup()
+		}()
 	}
 	// (a type that is computed lazily *and never refreshed*: with a refresh that follows the fields the
 	// moment of the first Type() call no longer matters)
@@ -442,12 +528,24 @@ func Run(tier, replay string) {
 	guard("rename_taken", names, map[string]string{"RenameTaken": "TRUE"}, "IRState.cfg", "ObserverTransparent,PrintTwiceSame,PrintFuncTwiceSame")
 	guard("md_one_pass", metadata, map[string]string{"MdVariant": `"one-pass"`}, "IRState.cfg", "ObserverTransparent")
 	guard("md_literal_ids", metadata, nil, "IRStateMdLiteral.cfg", "ObserverTransparentLiteral")
+	// Alias.Type() / IFunc.Type() follow the aliasee while the definition line reads the raw field
+	guard("indirect_type_follows_on_query", indirect, map[string]string{"IndirectRefresh": `"query"`, "MaxCalls": "4"}, "IRState.cfg", "ObserverTransparent,PrintTwiceSame")
+	// Func.LLString keeps the function mutex when the rendering panics
+	guard("mutex_kept_on_panic", halfbuilt, map[string]string{"UnlockOnPanic": "FALSE", "MaxCalls": "4"}, "IRState.cfg", "ObserverTransparent,PrintTwiceSame,PrintFuncTwiceSame")
+	// a printer skips AssignIDs while the number of parameters, blocks and instructions is unchanged
+	guard("renumber_skipped_by_count", inplace, map[string]string{"CountMemo": "TRUE", "MaxCalls": "4"}, "IRState.cfg", "NumberingCorrect,ObserverTransparent,PrintTwiceSame,PrintFuncTwiceSame,PrintFuncIsPart")
+	// Type() of an instruction without operands caches a placeholder
+	guard("placeholder_type_cached", halfbuilt, map[string]string{"EmptyType": `"void"`, "MaxCalls": "4"}, "IRState.cfg", "ObserverTransparent")
+	// the history class left out of the emission: operands of a struct-literal instruction retyped after a query
+	guard("literal_retyped", halfbuilt, map[string]string{"LitRetype": "TRUE", "MaxCalls": "4"}, "IRState.cfg", "ObserverTransparent")
 	if tier == "thorough" {
 		// InstAlloca.Type() as written by 141f39c (refresh on AddrSpace only): counterexample 7 calls deep
 		// Global.Type() as written by 1644016 (refresh on AddrSpace only)
 		guard("global_refresh_addrspace_only", typesCfg, map[string]string{"GlobalRefresh": `"addrspace"`, "MaxCalls": "7"}, "IRState.cfg", "ObserverTransparent")
 		guard("alloca_refresh_addrspace_only", typesCfg, map[string]string{"AllocaRefresh": `"addrspace"`, "MaxCalls": "7"}, "IRState.cfg", "ObserverTransparent")
 	}
+
+	gwg.Wait()
 
 	if tier == "thorough" {
 		// the object graph closed under all calls (no bound on the history), small structure
@@ -476,7 +574,7 @@ func Run(tier, replay string) {
 		rep.Note("%d histories print, without any observer, something else than the numbering IRState requires: judged by C08, not a C14 verdict", st.divergences)
 	}
 	rep.Exhaustive = true
-	rep.Explanation = "every transition of the ten IRState configurations of this tier was emitted and replayed (no sampling)"
+	rep.Explanation = "every transition of the thirteen IRState configurations of this tier was emitted and replayed (no sampling)"
 	rep.Assumptions = []string{
 		"the replay (harness/props/irhist) maps each IRState action to the public API call it stands for; instructions are add/call/store/fence, terminators ret/br/invoke/callbr/catchswitch with placeholder operands",
 		"Type(), Ident(), Operands(), Succs() are called on every object of the module at the observer's position",
